@@ -28,6 +28,20 @@ func (fc *FnCtx) callWith(instr ssa.Instruction, c *ssa.CallCommon, args []Val, 
 		}
 		fc.escapedRoots = nil
 	}()
+	// element pointers handed to the callee (or leaked into the heap earlier): the element storage of
+	// that sort may be written through them
+	if len(fc.eptr) > 0 {
+		for es := range fc.eptrLeaked {
+			fc.escapedRoots = append(fc.escapedRoots, "E:"+es)
+		}
+		for _, a := range c.Args {
+			if p, ok := types.Unalias(a.Type()).Underlying().(*types.Pointer); ok {
+				if _, ok := fc.eptr[fc.so.Sort(p.Elem())]; ok {
+					fc.escapedRoots = append(fc.escapedRoots, "E:"+fc.so.Sort(p.Elem()))
+				}
+			}
+		}
+	}
 	fc.callGuards(c, args, st)
 	fc.noteCalled(c, st)
 	if c.IsInvoke() {
